@@ -466,7 +466,7 @@ def _await_descriptor_upload(tor_protocol, onion, progress, await_all_uploads):
                 )
                 if not uploaded.called:
                     if await_all:
-                        if (len(failed_uploads) + len(confirmed_uploads)) == len(attempted_uploads):
+                        if attempted_uploads <= (confirmed_uploads | failed_uploads):
                             uploaded.callback(onion)
                     else:
                         uploaded.callback(onion)
@@ -478,12 +478,19 @@ def _await_descriptor_upload(tor_protocol, onion, progress, await_all_uploads):
                     "wait_descriptor",
                     "Failed upload to {}".format(args[3])
                 )
-                if failed_uploads == attempted_uploads:
+                if uploaded.called:
+                    pass
+                elif failed_uploads == attempted_uploads:
                     msg = "Failed to upload '{}' to: {}".format(
                         args[1],
                         ', '.join(failed_uploads),
                     )
                     uploaded.errback(RuntimeError(msg))
+                elif await_all and confirmed_uploads:
+                    # this failure may have been the last result we
+                    # were waiting for
+                    if attempted_uploads <= (confirmed_uploads | failed_uploads):
+                        uploaded.callback(onion)
 
     # the first 'yield' should be the add_event_listener so that a
     # caller can do "d = _await_descriptor_upload()", then add the
